@@ -82,3 +82,172 @@ package rsm
 //@ ensures result && cc.Type == pb.RemoveNode ==> cc.ReplicaID in m.members.Removed && !(cc.ReplicaID in m.members.Addresses) && !(cc.ReplicaID in m.members.NonVotings) && !(cc.ReplicaID in m.members.Witnesses) &&
 //@    (forall k uint64 :: k != cc.ReplicaID ==> (k in m.members.Addresses) == old(k in m.members.Addresses) && (k in m.members.NonVotings) == old(k in m.members.NonVotings) &&
 //@         (k in m.members.Witnesses) == old(k in m.members.Witnesses) && (k in m.members.Removed) == old(k in m.members.Removed))
+
+// ---------------------------------------------------------------- client sessions (C05)
+
+// gapplied: the series ids of this session that have been applied to the user state machine
+//@ ghost field Session.gapplied set
+// gsess: the abstract content of the LRU table (client id -> session object, nil = absent)
+//@ ghost field lrusession.gsess ptrmap:Session
+// number of Update calls made on the user state machine, and the index of the last one
+//@ ghost var gUpdates int
+//@ ghost var gLastIndex int
+
+//@ pred (s *Session) J() := s.History != nil &&
+//@   (forall k uint64 :: k in s.History ==> k > s.RespondedUpTo) &&
+//@   (forall k uint64 :: s.gapplied[k] ==> k <= s.RespondedUpTo || k in s.History)
+
+//@ func (s *Session) getResponse [C05]
+//@ ensures result1 == (id in s.History) && (result1 ==> result0 == s.History[id])
+
+//@ func (s *Session) hasResponded [C05]
+//@ ensures result == (id <= s.RespondedUpTo)
+
+//@ func (s *Session) addResponse [C05]
+//@ requires s.J() && id > s.RespondedUpTo
+//@ modifies entries(s.History)
+//@ ghostset s.gapplied := store(old(s.gapplied), id, true)
+//@ ensures s.J()
+//@ ensures !old(id in s.History) && id in s.History && s.History[id] == result
+//@ ensures forall k uint64 :: k != id ==> (k in s.History) == old(k in s.History) && s.History[k] == old(s.History[k])
+
+//@ func (s *Session) clearTo [C05]
+//@ requires s.J()
+//@ modifies s.RespondedUpTo, entries(s.History)
+//@ ensures s.J()
+//@ ensures s.RespondedUpTo == max(old(s.RespondedUpTo), to)
+//@ ensures forall k uint64 :: (k in s.History) == (old(k in s.History) && k > to)
+//@ ensures forall k uint64 :: k in s.History ==> s.History[k] == old(s.History[k])
+//@ loop 1 modifies entries(s.History)
+//@ loop 1 invariant s.RespondedUpTo == to && to > old(s.RespondedUpTo) + 1 && s.History != nil
+//@ loop 1 invariant forall k uint64 :: (k in s.History) == (old(k in s.History) && !(visited(k) && k <= to))
+//@ loop 1 invariant forall k uint64 :: k in s.History ==> s.History[k] == old(s.History[k])
+
+//@ func (rec *lrusession) getSession [C05]
+//@ trusted github.com/lni/goutils/cache.OrderedCache (LRU) is external; the table is modelled by the ghost map gsess
+//@ ensures result1 == (rec.gsess[key] != nil)
+//@ ensures result1 ==> result0 == rec.gsess[key] && result0.ClientID == key
+//@ ensures !result1 ==> result0 == nil
+
+//@ func (rec *lrusession) addSession [C05]
+//@ trusted github.com/lni/goutils/cache.OrderedCache (LRU) is external; may evict other sessions
+//@ modifies rec.gsess
+//@ ensures rec.gsess[key] != nil && fresh(rec.gsess[key]) && rec.gsess[key].ClientID == s.ClientID && rec.gsess[key].History == s.History && rec.gsess[key].RespondedUpTo == s.RespondedUpTo
+//@ ensures forall k uint64 :: !rec.gsess[key].gapplied[k]
+//@ ensures forall k uint64 :: k != key ==> rec.gsess[k] == old(rec.gsess[k]) || rec.gsess[k] == nil
+
+//@ func (rec *lrusession) delSession [C05]
+//@ trusted github.com/lni/goutils/cache.OrderedCache (LRU) is external
+//@ modifies rec.gsess
+//@ ensures rec.gsess[key] == nil
+//@ ensures forall k uint64 :: k != key ==> rec.gsess[k] == old(rec.gsess[k])
+
+//@ func (ds *SessionManager) RegisterClientID [C05]
+//@ requires ds.lru != nil
+//@ modifies ds.lru.gsess
+//@ ensures old(ds.lru.gsess[clientID] != nil) ==> result.Value == 0 && ds.lru.gsess[clientID] == old(ds.lru.gsess[clientID])
+//@ ensures old(ds.lru.gsess[clientID] != nil) ==> (forall k uint64 :: ds.lru.gsess[k] == old(ds.lru.gsess[k]))
+//@ ensures !old(ds.lru.gsess[clientID] != nil) ==> result.Value == clientID && ds.lru.gsess[clientID] != nil && fresh(ds.lru.gsess[clientID]) &&
+//@    ds.lru.gsess[clientID].J() && ds.lru.gsess[clientID].RespondedUpTo == 0 && len(ds.lru.gsess[clientID].History) == 0 &&
+//@    (forall k uint64 :: !ds.lru.gsess[clientID].gapplied[k])
+
+//@ func (ds *SessionManager) UnregisterClientID [C05]
+//@ requires ds.lru != nil
+//@ modifies ds.lru.gsess
+//@ ensures old(ds.lru.gsess[clientID] != nil) ==> result.Value == clientID && ds.lru.gsess[clientID] == nil
+//@ ensures !old(ds.lru.gsess[clientID] != nil) ==> result.Value == 0
+//@ ensures forall k uint64 :: k != clientID ==> ds.lru.gsess[k] == old(ds.lru.gsess[k])
+
+//@ func (ds *SessionManager) ClientRegistered [C05]
+//@ requires ds.lru != nil
+//@ ensures result1 == (ds.lru.gsess[clientID] != nil) && result0 == ds.lru.gsess[clientID]
+
+//@ func (ds *SessionManager) UpdateRespondedTo [C05]
+//@ requires session.J()
+//@ modifies session.RespondedUpTo, entries(session.History)
+//@ ensures session.J() && session.RespondedUpTo == max(old(session.RespondedUpTo), respondedTo)
+//@ ensures forall k uint64 :: (k in session.History) == (old(k in session.History) && k > respondedTo)
+//@ ensures forall k uint64 :: k in session.History ==> session.History[k] == old(session.History[k])
+
+//@ func (ds *SessionManager) UpdateRequired [C05]
+//@ ensures result1 == (seriesID <= session.RespondedUpTo)
+//@ ensures !result1 ==> result2 == !(seriesID in session.History)
+//@ ensures result1 ==> !result2
+//@ ensures !result1 && !result2 ==> result0 == session.History[seriesID]
+
+//@ func (ds *SessionManager) AddResponse [C05]
+//@ requires session.J() && seriesID > session.RespondedUpTo
+//@ modifies entries(session.History), session.gapplied
+//@ ensures session.J() && session.gapplied == store(old(session.gapplied), seriesID, true)
+//@ ensures seriesID in session.History && session.History[seriesID] == result
+
+// ---------------------------------------------------------------- StateMachine apply path (C05 C11 C02)
+
+// the managed user state machine: every call of Update bumps the ghost call counter
+//@ iface (m IManagedStateMachine) Update
+//@ modifies gUpdates, gLastIndex
+//@ ensures gUpdates == old(gUpdates) + 1 && gLastIndex == arg0.Index
+
+//@ iface (m IManagedStateMachine) OnDisk
+
+//@ iface (m IManagedStateMachine) Type
+
+//@ func GetPayload [C05]
+//@ trusted payload decoding (snappy) is external; GetPayload is a pure function of the entry
+
+//@ func (s *StateMachine) setApplied [C05 C11 C02]
+//@ requires s.index < MaxUint64
+//@ modifies s.index, s.term
+//@ ensures index == old(s.index) + 1 && term >= old(s.term) && s.index == index && s.term == term
+
+//@ pred (s *StateMachine) sessOf(id uint64) := s.sessions.lru.gsess[id]
+
+//@ func (s *StateMachine) update [C05 C11 C02]
+//@ requires s.sessions != nil && s.sessions.lru != nil && s.sm != nil && s.index < MaxUint64
+//@ requires s.sessOf(e.ClientID) != nil ==> s.sessOf(e.ClientID).J()
+//@ modifies held(s.mu), s.index, s.term, s.onDiskIndex, gUpdates, gLastIndex
+//@ modifies s.sessOf(e.ClientID).RespondedUpTo, entries(s.sessOf(e.ClientID).History), s.sessOf(e.ClientID).gapplied
+//@ ensures s.index == e.Index && old(s.index) + 1 == e.Index
+//@ ensures gUpdates == old(gUpdates) || gUpdates == old(gUpdates) + 1
+//@ ensures forall k uint64 :: s.sessOf(k) == old(s.sessOf(k))
+// T1: unknown session => rejected, state machine untouched
+//@ ensures e.SeriesID != sentinel("client", "NoOPSeriesID") && old(s.sessOf(e.ClientID)) == nil ==>
+//@    result2 && !result1 && result3 == nil && gUpdates == old(gUpdates)
+// session bookkeeping
+//@ ensures e.SeriesID != sentinel("client", "NoOPSeriesID") && old(s.sessOf(e.ClientID)) != nil ==>
+//@    s.sessOf(e.ClientID).J() && s.sessOf(e.ClientID).RespondedUpTo == max(old(s.sessOf(e.ClientID).RespondedUpTo), e.RespondedTo)
+// T2: already acknowledged => ignored, state machine untouched
+//@ ensures e.SeriesID != sentinel("client", "NoOPSeriesID") && old(s.sessOf(e.ClientID)) != nil && e.SeriesID <= max(old(s.sessOf(e.ClientID).RespondedUpTo), e.RespondedTo) ==>
+//@    result1 && !result2 && result3 == nil && gUpdates == old(gUpdates)
+// T3: cached result => returned again, state machine untouched
+//@ ensures e.SeriesID != sentinel("client", "NoOPSeriesID") && old(s.sessOf(e.ClientID)) != nil && e.SeriesID > max(old(s.sessOf(e.ClientID).RespondedUpTo), e.RespondedTo) &&
+//@    old(e.SeriesID in s.sessOf(e.ClientID).History) ==>
+//@    !result1 && !result2 && result3 == nil && gUpdates == old(gUpdates) && result0 == old(s.sessOf(e.ClientID).History[e.SeriesID])
+// T4: first time => exactly one Update carrying this index, result cached, never applied before
+//@ ensures e.SeriesID != sentinel("client", "NoOPSeriesID") && old(s.sessOf(e.ClientID)) != nil && e.SeriesID > max(old(s.sessOf(e.ClientID).RespondedUpTo), e.RespondedTo) &&
+//@    !old(e.SeriesID in s.sessOf(e.ClientID).History) ==>
+//@    !old(s.sessOf(e.ClientID).gapplied[e.SeriesID]) && !result1 && !result2
+//@ ensures e.SeriesID != sentinel("client", "NoOPSeriesID") && old(s.sessOf(e.ClientID)) != nil && e.SeriesID > max(old(s.sessOf(e.ClientID).RespondedUpTo), e.RespondedTo) &&
+//@    !old(e.SeriesID in s.sessOf(e.ClientID).History) && result3 == nil ==>
+//@    gUpdates == old(gUpdates) + 1 && gLastIndex == e.Index && s.sessOf(e.ClientID).gapplied[e.SeriesID] &&
+//@    e.SeriesID in s.sessOf(e.ClientID).History && s.sessOf(e.ClientID).History[e.SeriesID] == result0
+
+//@ func (s *StateMachine) registerSession [C05 C11]
+//@ requires s.sessions != nil && s.sessions.lru != nil && s.index < MaxUint64
+//@ modifies held(s.mu), s.index, s.term, s.sessions.lru.gsess
+//@ ensures s.index == e.Index && old(s.index) + 1 == e.Index && gUpdates == old(gUpdates)
+//@ ensures old(s.sessOf(e.ClientID) != nil) ==> result.Value == 0 && (forall k uint64 :: s.sessOf(k) == old(s.sessOf(k)))
+//@ ensures !old(s.sessOf(e.ClientID) != nil) ==> result.Value == e.ClientID && s.sessOf(e.ClientID) != nil && s.sessOf(e.ClientID).J() &&
+//@    (forall k uint64 :: !s.sessOf(e.ClientID).gapplied[k])
+
+//@ func (s *StateMachine) unregisterSession [C05 C11]
+//@ requires s.sessions != nil && s.sessions.lru != nil && s.index < MaxUint64
+//@ modifies held(s.mu), s.index, s.term, s.sessions.lru.gsess
+//@ ensures s.index == e.Index && old(s.index) + 1 == e.Index && gUpdates == old(gUpdates)
+//@ ensures old(s.sessOf(e.ClientID) != nil) ==> result.Value == e.ClientID && s.sessOf(e.ClientID) == nil
+//@ ensures !old(s.sessOf(e.ClientID) != nil) ==> result.Value == 0
+
+//@ func (s *StateMachine) noop [C05 C11]
+//@ requires s.index < MaxUint64
+//@ modifies held(s.mu), s.index, s.term
+//@ ensures s.index == e.Index && old(s.index) + 1 == e.Index && gUpdates == old(gUpdates)
